@@ -36,8 +36,20 @@ try:
     res['demo_with'] = rc1
     res['demo_with_tail'] = out1.strip().splitlines()[-3:]
     junit = os.path.join(wt, 'junit.xml')
-    rc, out = sh([PY, '-m', 'pytest', '-q', '-p', 'no:cacheprovider', '--timeout=900', '--continue-on-collection-errors',
-                  '--junitxml=' + junit], cwd=wt, env=dict(os.environ, MPLBACKEND='Agg'))
+    for attempt in range(4):
+        # the repository's pool tests occasionally dead-lock in CPython's Pool teardown (§6.3 of DESIGN.md): bounded, retried
+        try:
+            if os.path.exists(junit):
+                os.remove(junit)
+            p = subprocess.Popen([PY, '-m', 'pytest', '-q', '-p', 'no:cacheprovider', '--timeout=900', '--continue-on-collection-errors',
+                                  '--junitxml=' + junit], cwd=wt, env=dict(os.environ, MPLBACKEND='Agg'), stdout=subprocess.DEVNULL,
+                                 stderr=subprocess.DEVNULL, start_new_session=True)
+            p.wait(timeout=300)
+            break
+        except subprocess.TimeoutExpired:
+            import signal
+            os.killpg(p.pid, signal.SIGKILL)
+            p.wait()
     import xml.etree.ElementTree as ET
     passed = set()
     for tc in ET.parse(junit).getroot().iter('testcase'):
